@@ -80,13 +80,14 @@ def finish(res, level, technique_note, explanation):
             real.append(o)
     # floors
     floor_fail = [(n, m, f) for (n, m, f) in res.floors if m < f]
-    os.makedirs(os.path.join(VERIF, "evidence"), exist_ok=True)
-    os.makedirs(os.path.join(VERIF, "replay"), exist_ok=True)
+    OUT = os.environ.get("FALCON_OUT_DIR", VERIF)      # only tools/matrix.py redirects this (scratch runs on patched copies)
+    os.makedirs(os.path.join(OUT, "evidence"), exist_ok=True)
+    os.makedirs(os.path.join(OUT, "replay"), exist_ok=True)
     code = 0
     for k in sorted(seen_known):
         print(f"KNOWN-FINDING: property={pid} {known_keys[k]['what']} [key {k}]")
     for i, o in enumerate(real):
-        rp = os.path.join(VERIF, "replay", f"{pid}-{i}.json")
+        rp = os.path.join(OUT, "replay", f"{pid}-{i}.json")
         with open(rp, "w") as fh:
             json.dump({"property": pid, "rule": o["rule"], "site": o["site"], "detail": o["detail"],
                        "key": o["key"], "data": o["data"],
@@ -130,7 +131,7 @@ def finish(res, level, technique_note, explanation):
         "level": level, "coverage": cov, "assumptions": res.assumptions,
         "wall_s": round(time.time() - res.t0, 2), "violations": len(real),
     }
-    with open(os.path.join(VERIF, "evidence", f"{pid}.json"), "w") as fh:
+    with open(os.path.join(OUT, "evidence", f"{pid}.json"), "w") as fh:
         json.dump(ev, fh, indent=1, default=str)
     if code == 0:
         print(f"OK property={pid} tier={res.tier}: {n_dis} discharged, {n_ass} assumed, {len(seen_known)} known finding(s), "
